@@ -175,9 +175,12 @@ func (i Branch) String() string {
 }
 
 func (i Branch) adjust(offset int, state *GenState) SearchInstruction {
+	// copy: the stored pattern must stay untouched for its next reference
+	branches := make([]int, len(i.Branches))
 	for idx := range i.Branches {
-		i.Branches[idx] += offset
+		branches[idx] = i.Branches[idx] + offset
 	}
+	i.Branches = branches
 	return i
 }
 
